@@ -41,28 +41,7 @@ func gen(seed int64, tier string, idx int) *pipe.Scenario {
 		sc.Topo.DLQ.NackPermille = []int{100, 400, 1000}[g.R.Intn(3)]
 	}
 	if idx%8 == 5 {
-		// partial DLQ failure family: several consecutive rejections travel in
-		// ONE source batch (on arch-v2: one DLQ write) and the DLQ rejects one of
-		// them that is not the last, i.e. DLQ replies like NACK,ack,ack or
-		// ack,NACK,ack. Only the acked prefix may be acknowledged to the source.
-		s0 := &sc.Topo.Sources[0]
-		s0.Src.Batches = []int{[]int{8, 6, 12}[g.R.Intn(3)]}
-		sc.Topo.Dests = sc.Topo.Dests[:1]
-		d := &sc.Topo.Dests[0]
-		d.Dst.NackPermille = 0
-		d.Dst.NackIdx = map[int]bool{}
-		at := 1 + g.R.Intn(4)
-		n := 3 + g.R.Intn(3)
-		for k := 0; k < n; k++ {
-			d.Dst.NackIdx[at+k] = true
-		}
-		if g.R.Intn(2) == 0 {
-			sc.Topo.DLQWindow, sc.Topo.DLQThresh = 0, 0 // no limit
-		} else {
-			sc.Topo.DLQWindow, sc.Topo.DLQThresh = 8, 6
-		}
-		sc.Topo.DLQ.NackPermille = 0
-		sc.Topo.DLQ.NackIdx = map[int]bool{at + g.R.Intn(n-1): true}
+		g.PartialDLQFailure(sc)
 	}
 	// keep recovery cheap: few retries
 	sc.RecMaxRetries = 1
@@ -76,6 +55,17 @@ func judge(out *pipe.Outcome, ix *pipe.Index) pipe.Verdict {
 	vs, j := pipe.OracleC07(ix, exact)
 	v.Violations = vs
 	v.AddJudged("", j)
+	// the stored position is the durable form of the ack: it must not pass a record
+	// whose dead-lettering failed either
+	vs02, j02 := pipe.OracleC02(ix)
+	for _, x := range vs02 {
+		if x.Class == "commit-past-unhandled" {
+			x.Property = "C07"
+			x.Identity = "C07/stored-position-past-record-not-dead-lettered/" + sc.Engine
+			v.Violations = append(v.Violations, x)
+		}
+	}
+	v.Stats["stored_position_obligations"] += j02.ByHow["commit-covers-handled"]
 	// differential: both engines must take identical decisions for identical outcome sequences
 	if len(sc.Topo.Sources) == 1 && len(vs) == 0 && out.Settled && sc.Topo.DLQ.NackPermille == 0 && len(sc.Topo.DLQ.NackIdx) == 0 {
 		other := *sc
